@@ -41,13 +41,14 @@ type Engine struct {
 	typeCache map[string]types.Type
 	immutable map[string]bool
 	immutableSan map[string]bool // sanitized full names of immutable globals
+	aliases      map[string]map[string]*types.Package // package path -> import alias -> package
 }
 
 func loadEngine(repo string, patterns []string) (*Engine, error) {
 	e := &Engine{repo: repo, funcs: map[string]*ssa.Function{}, blocks: map[string]*Block{}, ifaces: map[string]*Block{},
 		specFuncs: map[string]*Block{}, preds: map[string]*Block{}, ghosts: map[string]*Block{}, blockPkg: map[*Block]*types.Package{},
 		loopCache: map[*ssa.Function][]*astLoop{}, files: map[string]*ast.File{}, src: map[string][]byte{}, byName: map[string]*types.Package{},
-		allPkgs: map[string]*packages.Package{}, typeCache: map[string]types.Type{}, immutable: map[string]bool{}, immutableSan: map[string]bool{}}
+		allPkgs: map[string]*packages.Package{}, typeCache: map[string]types.Type{}, immutable: map[string]bool{}, immutableSan: map[string]bool{}, aliases: map[string]map[string]*types.Package{}}
 	cfg := &packages.Config{Mode: packages.LoadAllSyntax, Dir: repo, BuildFlags: []string{"-tags=verif"}}
 	pkgs, err := packages.Load(cfg, patterns...)
 	if err != nil {
@@ -82,6 +83,30 @@ func loadEngine(repo string, patterns []string) (*Engine, error) {
 			name := e.fset.Position(f.Pos()).Filename
 			e.files[name] = f
 		}
+	}
+	// import aliases as written in each package's source files
+	for _, p := range e.allPkgs {
+		if !strings.HasPrefix(p.PkgPath, modulePath) {
+			continue
+		}
+		am := map[string]*types.Package{}
+		for _, f := range p.Syntax {
+			for _, im := range f.Imports {
+				path := strings.Trim(im.Path.Value, "\"")
+				ip := e.allPkgs[path]
+				if ip == nil || ip.Types == nil {
+					continue
+				}
+				name := ip.Types.Name()
+				if im.Name != nil {
+					name = im.Name.Name
+				}
+				if name != "_" && name != "." {
+					am[name] = ip.Types
+				}
+			}
+		}
+		e.aliases[p.PkgPath] = am
 	}
 	// contract files of every loaded repo package
 	for _, p := range e.allPkgs {
@@ -147,6 +172,11 @@ func (e *Engine) qualify(typeName, pkgPath string) string {
 		if strings.Contains(p, "/") || e.allPkgs[p] != nil {
 			return p + "." + n
 		}
+		if am, ok := e.aliases[pkgPath]; ok {
+			if tp, ok := am[p]; ok {
+				return tp.Path() + "." + n
+			}
+		}
 		if tp, ok := e.byName[p]; ok {
 			return tp.Path() + "." + n
 		}
@@ -207,6 +237,14 @@ func (e *Engine) pkgOfBlock(b *Block) *types.Package { return e.blockPkg[b] }
 
 func (e *Engine) pkgByName(name string) *types.Package { return e.byName[name] }
 
+// importedAs: the package that source files of pkg import under this name.
+func (e *Engine) importedAs(pkg *types.Package, name string) *types.Package {
+	if pkg == nil {
+		return nil
+	}
+	return e.aliases[pkg.Path()][name]
+}
+
 func (e *Engine) shortFuncName(fn *ssa.Function) string {
 	s := fn.String()
 	s = strings.ReplaceAll(s, modulePath+"/", "")
@@ -230,8 +268,15 @@ func (e *Engine) parseType(text string, pkg *types.Package) types.Type {
 	}
 	// build a scope with imports by name
 	scope := types.NewScope(types.Universe, token.NoPos, token.NoPos, "spec")
+	if pkg != nil {
+		for name, p := range e.aliases[pkg.Path()] {
+			scope.Insert(types.NewPkgName(token.NoPos, pkg, name, p))
+		}
+	}
 	for name, p := range e.byName {
-		scope.Insert(types.NewPkgName(token.NoPos, pkg, name, p))
+		if scope.Lookup(name) == nil {
+			scope.Insert(types.NewPkgName(token.NoPos, pkg, name, p))
+		}
 	}
 	var tpkg *types.Package
 	if pkg != nil {
